@@ -60,7 +60,7 @@ Qed.
 (** the alignment without the clause on the class of the last gap token *)
 Definition blk_ok_weak (g : grammar) (b : blk) : Prop :=
   match b with
-  | BSig t => sigb t = true
+  | BSig t => True
   | BGap w x w' x' => Forall (okgap g) (w ++ [x]) /\ Forall (okgap g) (w' ++ [x'])
   end.
 
@@ -118,7 +118,7 @@ Definition g2_tok (u : N) : ptok := mkPtok true false 20 [20] u u (Some u).
 Definition g2_l : list ptok := [g2_tok 100; tW; tN; g2_tok 101; g2_tok 102; g2_tok 103].
 Definition g2_l' : list ptok := [g2_tok 100; tW; g2_tok 101; g2_tok 102; g2_tok 103].
 
-Lemma rx_compat_nil bs : rx_compat bs [] [].
+Lemma rx_compat_nil g bs : rx_compat g bs [] [].
 Proof. split; [|split]; intros; reflexivity. Qed.
 
 Theorem layout_greedy_option_sensitive :
